@@ -76,7 +76,7 @@ def parser_histories(rec, hb, pvl, tier, seed, part, nparts):
 
     hists = [h for n in (2, 3) for h in itertools.product(range(len(TEXTS)), repeat=n)]
     rng = random.Random(f"C16-{seed}")
-    for _ in range(200 if tier == "quick" else 5000):
+    for _ in range(200 if tier == "quick" else 40000):
         hists.append(tuple(rng.randrange(len(TEXTS))
                            for _ in range(rng.randint(4, 12))))
     n = 0
